@@ -9,6 +9,18 @@ A diagram (JSON):
 Every class gets `Id : unique_id` as first attribute and identifier I1 (subtypes and link classes: their referential
 attributes).  Data types Colour (enumeration) and Len (user type on real) live in the top package.
 
+Optional keys (compound identifiers, renamed referential attributes, storage order):
+   'ids':    {key letters: [[attribute, type], ...]}   attributes of identifier I1 of a class that is not a subtype or link
+             class, in declared order (default [['Id', 'unique_id']])
+   'naming': {tag: mode}   names of the referential attributes of one formalization; tag = 'R<n>' (simple), 'R<n>a' / 'R<n>b'
+             (link class -> one / other end), 'R<n>/<sub key letters>' (subtype).  mode 'keep': the names of the identifying
+             attributes they refer to (prefixed with Via<tag>_ where the class already has that name); mode k (integer): the
+             referential attribute that refers to the identifying attribute of alphabetical rank i is named with the pool name
+             of rank p[i], p = k-th permutation (itertools order, k modulo n!) -- k = 0: the two alphabetical orders agree,
+             k = n!-1: one is the reverse of the other, else they disagree.  Without entry: <kl>_<identifying name>_R<n>.
+   'store':  {row kind: 'rev' | 'rot' | 'swap'}   the rows of that kind (O_REF, O_RTIDA, O_OIDA, O_RATTR, O_ATTR ...) are
+             stored in reversed / rotated-by-one / pairwise-swapped order (at the places rows of that kind have in the file)
+
 Layouts (where the classes and relationships are packaged):
   L0  package P (no component)                         components: -
   L1  package Top > component C1 > package P1          components: C1
@@ -16,6 +28,8 @@ Layouts (where the classes and relationships are packaged):
   L3  component C1 > package P1 : first group; P1 > component C2 > package P2 : the other groups (C2 nested in C1)
   L4  component C1 contains the first group directly (no package); package Out holds the others (outside any component)
 """
+import itertools
+
 from . import _c14_rows as R
 
 NAMES = [('Alpha', 'A'), ('Beta', 'B'), ('Gamma', 'C')]
@@ -103,10 +117,14 @@ def build(diagram):
             ref_identified.add(r[2])
         elif r[0] == 'subsup':
             ref_identified.update(r[3])
+    ids_spec = diagram.get('ids') or {}
+    naming = diagram.get('naming') or {}
     for name, kl, attrs, derived, id2 in diagram['classes']:
         if kl not in ref_identified:
-            b.attr(kl, 'Id', 'unique_id')
-            b.identifier(kl, 0, ['Id'])
+            spec = ids_spec.get(kl) or [['Id', 'unique_id']]
+            for an, ty in spec:
+                b.attr(kl, an, ty)
+            b.identifier(kl, 0, [an for an, _ in spec])
     # relationships in an order where referred identifiers exist: supertypes/ends before subtypes/links
     pending = list(diagram['rels'])
     guard = 0
@@ -117,14 +135,14 @@ def build(diagram):
                 _, numb, fk, pk, fm, fc, pm, pc, fp, pp = r
                 if 0 not in b.classes[pk]['ids']:
                     continue
-                names = ['%s_%s_R%d' % (pk, n, numb) for n in b.classes[pk]['ids'][0]]
+                names = ref_names(b, naming, 'R%d' % numb, fk, pk, ['%s_%s_R%d' % (pk, n, numb) for n in b.classes[pk]['ids'][0]])
                 b.simple(numb, fk, pk, names, (fm, fc), (pm, pc), (fp, pp), parent=home(fk))
             elif r[0] == 'linked':
                 _, numb, lk, ok, tk, om, oc, tm, tc, op, tp = r
                 if 0 not in b.classes[ok]['ids'] or 0 not in b.classes[tk]['ids']:
                     continue
-                n1 = ['%s_%s_R%da' % (ok, n, numb) for n in b.classes[ok]['ids'][0]]
-                n2 = ['%s_%s_R%db' % (tk, n, numb) for n in b.classes[tk]['ids'][0]]
+                n1 = ref_names(b, naming, 'R%da' % numb, lk, ok, ['%s_%s_R%da' % (ok, n, numb) for n in b.classes[ok]['ids'][0]])
+                n2 = ref_names(b, naming, 'R%db' % numb, lk, tk, ['%s_%s_R%db' % (tk, n, numb) for n in b.classes[tk]['ids'][0]], n1)
                 b.linked(numb, lk, ok, tk, n1, n2, (om, oc), (tm, tc), (op, tp), parent=home(lk))
                 if 0 not in b.classes[lk]['ids']:
                     b.identifier(lk, 0, n1 + n2)
@@ -134,7 +152,8 @@ def build(diagram):
                     continue
                 lst = []
                 for sub in subs:
-                    lst.append((sub, ['%s_R%d' % (n, numb) for n in b.classes[sk]['ids'][0]]))
+                    lst.append((sub, ref_names(b, naming, 'R%d/%s' % (numb, sub), sub, sk,
+                                               ['%s_R%d' % (n, numb) for n in b.classes[sk]['ids'][0]])))
                 b.subsup(numb, sk, lst, parent=home(sk))
                 for sub, names in lst:
                     if 0 not in b.classes[sub]['ids']:
@@ -147,7 +166,56 @@ def build(diagram):
             b.attr(kl, an, ty, derived='self.%s = 0;' % an if an in derived else None)
         if id2:
             b.identifier(kl, 1, id2)
+    for c in b.classes.values():
+        names = [a['name'] for a in c['attrs']]
+        if len(set(names)) != len(names):
+            raise ValueError('attribute name used twice in %s: %r' % (c['kl'], names))
+    store_rows(b.rows, diagram.get('store') or {})
     return b.rows
+
+
+def pool_name(rank, tag):
+    """Names whose alphabetical order is the order of their ranks (AA_<tag> < DD_<tag> < GG_<tag> ...)."""
+    return '%s_%s' % (chr(ord('A') + 3 * rank) * 2, tag.replace('/', '_'))
+
+
+def ref_names(b, naming, tag, from_kl, to_kl, default, also_taken=()):
+    """Names of the referential attributes of from_kl that refer to identifier I1 of to_kl (one per identifying attribute,
+    in the declared order of the identifier)."""
+    mode = naming.get(tag)
+    if mode is None:
+        return default
+    idents = b.classes[to_kl]['ids'][0]
+    if mode == 'keep':
+        taken = set(a['name'] for a in b.classes[from_kl]['attrs']) | set(also_taken)
+        return [i if i not in taken else 'Via%s_%s' % (tag.replace('/', '_'), i) for i in idents]
+    n = len(idents)
+    if n > 8:
+        raise ValueError('identifier too long')
+    count = 1
+    for i in range(2, n + 1):
+        count *= i
+    perm = next(itertools.islice(itertools.permutations(range(n)), int(mode) % count, None))
+    srt = sorted(idents)
+    return [pool_name(perm[srt.index(i)], tag) for i in idents]
+
+
+def store_rows(rows, store):
+    for kind in sorted(store):
+        mode = store[kind]
+        at = [i for i, r in enumerate(rows) if r.kind == kind]
+        sel = [rows[i] for i in at]
+        if mode == 'rev':
+            sel.reverse()
+        elif mode == 'rot':
+            sel = sel[1:] + sel[:1]
+        elif mode == 'swap':
+            for j in range(0, len(sel) - 1, 2):
+                sel[j], sel[j + 1] = sel[j + 1], sel[j]
+        else:
+            raise ValueError(mode)
+        for i, r in zip(at, sel):
+            rows[i] = r
 
 
 def well_formed(diagram):
@@ -183,6 +251,95 @@ def single_relationship_diagrams():
     yield dict(classes=classes_for(2), rels=[['subsup', 5, 'A', ['B']]])
     yield dict(classes=classes_for(3), rels=[['subsup', 6, 'A', ['B', 'C']]])
     yield dict(classes=classes_for(3), rels=[])
+
+
+ID_NAMES = ['Row_%s', 'Bay_%s', 'Col_%s']      # declared order differs from the alphabetical one for 2 and for 3 attributes
+ID_TYPES = ['integer', 'string', 'unique_id', 'real']
+
+
+def id_spec(kl, n, variant=0):
+    """Compound identifier of n attributes for class kl: Row_<kl>, Col_<kl> (n = 2) / Row_<kl>, Bay_<kl>, Col_<kl> (n = 3)."""
+    names = [ID_NAMES[0], ID_NAMES[2]] if n == 2 else ID_NAMES[:n]
+    return [[nm % kl, ID_TYPES[(i + variant) % len(ID_TYPES)]] for i, nm in enumerate(names)]
+
+
+def naming_modes(n):
+    """'keep' and every permutation index of n ranks (0: orders agree ... n!-1: reversed)."""
+    count = 1
+    for i in range(2, n + 1):
+        count *= i
+    return ['keep'] + list(range(count))
+
+
+def compound_key_diagrams(sizes=(2, 3)):
+    """Every relationship kind formalised over a compound identifier of 2 / 3 attributes x every naming mode of the
+    referential attributes.  Relationships with two formalizations (both ends of a link class, two subtypes, chains) take
+    the next mode (cyclically) for the second one, so every mode occurs on every side.  Mult/Cond rotate over the 16
+    combinations."""
+    count = 0
+    for n in sizes:
+        modes = naming_modes(n)
+        for mi, mode in enumerate(modes):
+            other = modes[(mi + 1) % len(modes)]
+            third = modes[(mi + 2) % len(modes)]
+            shapes = [
+                ('simple', 2, {'B': id_spec('B', n)},
+                 [['simple', 1, 'A', 'B', 0, 0, 0, 0, 'has', 'is of']], {'R1': mode}),
+                ('reflexive', 1, {'A': id_spec('A', n, 1)},
+                 [['simple', 2, 'A', 'A', 0, 0, 0, 0, 'follows', 'leads']], {'R2': mode}),
+                ('linked', 3, {'A': id_spec('A', n), 'B': id_spec('B', n, 2)},
+                 [['linked', 3, 'C', 'A', 'B', 0, 0, 0, 0, 'near', 'far']], {'R3a': mode, 'R3b': other}),
+                ('linked-reflexive', 2, {'A': id_spec('A', n, 1)},
+                 [['linked', 4, 'B', 'A', 'A', 0, 0, 0, 0, 'left', 'right']], {'R4a': mode, 'R4b': other}),
+                ('subtype', 2, {'A': id_spec('A', n)},
+                 [['subsup', 5, 'A', ['B']]], {'R5/B': mode}),
+                ('subtypes', 3, {'A': id_spec('A', n, 3)},
+                 [['subsup', 6, 'A', ['B', 'C']]], {'R6/B': mode, 'R6/C': other}),
+                ('subtype-chain', 3, {'A': id_spec('A', n, 2)},
+                 [['subsup', 5, 'A', ['B']], ['simple', 1, 'C', 'B', 0, 0, 0, 0, '', '']], {'R5/B': other, 'R1': mode}),
+                ('subtype-of-subtype', 3, {'A': id_spec('A', n, 1)},
+                 [['subsup', 5, 'A', ['B']], ['subsup', 6, 'B', ['C']]], {'R5/B': mode, 'R6/C': third}),
+            ]
+            if n == 2:
+                # the identifier of a link class between two singly identified classes is compound, too
+                shapes.append(('link-referred', 3, {},
+                               [['linked', 3, 'C', 'A', 'B', 0, 0, 0, 0, 'near', 'far'], ['simple', 1, 'A', 'C', 0, 0, 0, 0, '', '']],
+                               {'R1': mode}))
+                shapes.append(('link-referred-renamed', 3, {'A': [['Key', 'integer']], 'B': [['Code', 'string']]},
+                               [['linked', 3, 'C', 'A', 'B', 0, 0, 0, 0, 'near', 'far'], ['simple', 1, 'B', 'C', 0, 0, 0, 0, '', '']],
+                               {'R3a': other, 'R3b': mode, 'R1': mode}))
+            for shape, ncls, ids, rels, naming in shapes:
+                rels = [list(r) for r in rels]
+                for r in rels:
+                    if r[0] in ('simple', 'linked'):
+                        at = 4 if r[0] == 'simple' else 5
+                        for j in range(4):
+                            r[at + j] = (count >> j) & 1
+                        count += 1
+                yield dict(shape=shape, classes=classes_for(ncls), ids=ids, rels=rels, naming=naming)
+
+
+def random_compound(rng, diagram):
+    """Widens a random diagram: identifiers of 1-3 attributes, naming modes and storage orders."""
+    ids, naming, store = {}, {}, {}
+    for name, kl, attrs, derived, id2 in diagram['classes']:
+        n = rng.choice([1, 2, 2, 3])
+        if n > 1:
+            ids[kl] = id_spec(kl, n, rng.randrange(4))
+    for r in diagram['rels']:
+        if r[0] == 'simple':
+            tags = ['R%d' % r[1]]
+        elif r[0] == 'linked':
+            tags = ['R%da' % r[1], 'R%db' % r[1]]
+        else:
+            tags = ['R%d/%s' % (r[1], sub) for sub in r[3]]
+        for t in tags:
+            if rng.random() < 0.75:
+                naming[t] = rng.choice(['keep', 0, 1, 2, 3, 4, 5, rng.randrange(720)])
+    for kind in ('O_REF', 'O_RTIDA', 'O_OIDA', 'O_RATTR', 'O_ATTR'):
+        if rng.random() < 0.3:
+            store[kind] = rng.choice(['rev', 'rot', 'swap'])
+    return dict(diagram, ids=ids, naming=naming, store=store)
 
 
 def random_diagram(rng):
